@@ -90,6 +90,13 @@ def expectSub (s : SubOn.State) : Nat → List (Kind × String)
     match s.wpc with
     | .take => [(.take, "q:take"), (.exit, "q:exit")]
     | .newObs => [(.task, "w:unsc")]           -- `new_observer` registers the upstream unsubscriber
+    | .rchk0 => [(.chk, "r:sN")]               -- … and re-checks the subscriber (stream_controller.rs 83)
+    | .rchk1 => [(.chk, "r:sE")]
+    | .rchk2 => [(.chk, "r:sC")]
+    | .rrem => [(.remove, "w:unsc")]           -- dead: remove the entry again, unsubscribe the fresh observer
+    | .ruc0 => [(.fUp, "w:uN")]
+    | .ruc1 => [(.fUp, "w:uE")]
+    | .ruc2 => [(.fUp, "w:uC")]
     | .sub0 => [(.chk, "r:uN")]
     | .sub1 => [(.chk, "r:uE")]
     | .sub2 => [(.chk, "r:uC")]
@@ -265,7 +272,7 @@ def cosim (payload : String) : String :=
           match compare st.delivered (st.wpc == .done) (st.wpc == .done) (st.upc == .done) got wexit with
           | some m => " REJECT " ++ m
           | none => s!" ok steps={tr.length} delivered={st.delivered.map Ev.toStr} consumed={st.consumed.length}" ++
-              s!" skipped={bstr st.skipped} taskDone={bstr st.taskDone} abort={bstr st.abort} unsubEarly={bstr st.unsubEarly} lateCb={bstr st.lateCb}"
+              s!" skipped={bstr st.skipped} lateAttach={bstr st.lateAttach} taskDone={bstr st.taskDone} abort={bstr st.abort} unsubEarly={bstr st.unsubEarly} lateCb={bstr st.lateCb}"
   | _ => " REJECT malformed payload"
 
 end Rx.Handoff.Cosim
